@@ -219,6 +219,31 @@ Section Ask.
     apply Forall_app. split; [exact A| apply IH; assumption].
   Qed.
 
+  (* ---------- several search() calls on one object: a history splits into consecutive calls ---------- *)
+  Lemma asked_app v : forall evs1 evs2 st,
+    asked R lg pw v sp actf st (evs1 ++ evs2) =
+    asked R lg pw v sp actf st evs1 ++ asked R lg pw v sp actf (final R lg pw v sp actf st evs1) evs2.
+  Proof.
+    induction evs1 as [|e evs1 IH]; intros evs2 st; [reflexivity|].
+    cbn [app asked final]. destruct (step R lg pw v sp actf st e) as [rows st'] eqn:E. cbn [snd].
+    rewrite IH, app_assoc. reflexivity.
+  Qed.
+
+  Lemma final_inv v : v <> Pinned -> forall evs st, Inv st -> Forall ev_ok evs -> Inv (final R lg pw v sp actf st evs).
+  Proof.
+    intros NP. induction evs as [|e evs IH]; intros st I H; cbn [final]; [exact I|].
+    inversion H as [|? ? He Hes]; subst. apply IH; [|exact Hes]. apply (step_inv v st e NP I He).
+  Qed.
+
+  Lemma final_invc : forall evs st, InvC st -> Forall ev_canon evs -> InvC (final R lg pw Fixed sp actf st evs).
+  Proof.
+    induction evs as [|e evs IH]; intros st I H; cbn [final]; [exact I|].
+    inversion H as [|? ? He Hes]; subst. apply IH; [|exact Hes].
+    destruct e as [k fit cands z|n s orc]; cbn [step snd].
+    - apply tell_state_invc, I.
+    - apply (ask_points_invc st n s orc I He).
+  Qed.
+
   (* the initial state is canonical when the caller's points are and there is no quasi-random design (the property quantifies
      constrained spaces with the random design only: the designs fill the box and ignore conditions) *)
   Lemma init_state_invc n_initial dummy user : Forall canonical user -> InvC (init_state R lg pw sp n_initial dummy user []).
